@@ -69,6 +69,8 @@ impl std::ops::Add for Duration {
 
 pub static mut CLOCK_READS: u32 = 0;
 pub static mut CLOCK_FORBIDDEN: bool = false;
+/// ghost: the value the last elapsed() read returned (nanoseconds)
+pub static mut LAST_ELAPSED: u64 = 0;
 #[derive(Clone, Copy)]
 pub struct Instant;
 impl Instant {
@@ -84,7 +86,9 @@ impl Instant {
             assert!(!CLOCK_FORBIDDEN, "the wall clock must not be read on this path");
             CLOCK_READS += 1;
         }
-        Duration(kani::any())
+        let e: u64 = kani::any();
+        unsafe { LAST_ELAPSED = e; }
+        Duration(e)
     }
 }
 
@@ -205,19 +209,22 @@ fn vk_c14_limits_exact_time() {
     assert!(ts.soft_stop == t && ts.hard_stop == t);
 }
 
+// Built through the repo's own constructor (on the cheap Infinite path) and then havocked field by field, NOT as a struct
+// literal: a change that adds a field to TimeStrategy keeps compiling, the new field holds whatever `new` gives it, and the
+// contract below is then decided against the changed body instead of being lost (seed C14-clock-ignored-until-depth-two).
 fn any_strategy(tc: TimeControl) -> TimeStrategy {
-    TimeStrategy {
-        time_control: tc,
-        started_at: Instant,
-        soft_stop: Duration(kani::any()),
-        hard_stop: Duration(kani::any()),
-        next_check_at: kani::any(),
-        force_stop: Arc::new(AtomicBool::new(kani::any())),
-    }
+    let (mut ts, _control) = TimeStrategy::new(&any_game(), &TimeControl::Infinite, &EngineOptions::default());
+    ts.time_control = tc;
+    ts.started_at = Instant;
+    ts.soft_stop = Duration(kani::any());
+    ts.hard_stop = Duration(kani::any());
+    ts.next_check_at = kani::any();
+    ts.force_stop = Arc::new(AtomicBool::new(kani::any()));
+    ts
 }
 
 //@ obligation: C09.should_stop.contract
-//@ property: C09
+//@ property: C09 C14
 //@ domain: complete
 //@ functions: engine/search/time_control.rs::TimeStrategy::should_stop, engine/search/time_control.rs::TimeStrategy::should_start_new_search, engine/search/time_control.rs::TimeStrategy::is_force_stopped, engine/search/time_control.rs::Control::stop
 //@ timeout: 900
@@ -235,6 +242,8 @@ fn vk_c09_should_stop_contract() {
     let mut ts = any_strategy(tc);
     let flag = ts.force_stop.load(Ordering::Relaxed);
     let next0 = ts.next_check_at;
+    let hard0 = ts.hard_stop.0;
+    let exact0 = if let TimeControl::ExactTime(d) = &ts.time_control { d.0 } else { 0 };
     let n: u64 = kani::any();
     kani::assume(n <= u64::MAX - params::CHECK_TERMINATION_NODE_FREQUENCY);
     let depth: u8 = kani::any();
@@ -258,6 +267,12 @@ fn vk_c09_should_stop_contract() {
         assert!(ts.next_check_at == n + params::CHECK_TERMINATION_NODE_FREQUENCY);
         if which % 3 == 0 {
             assert!(!r);
+        } else {
+            // the limit of the active time control decides, at EVERY poll (whatever should_start_new_search saw before):
+            // the clock is read exactly once and the answer is `elapsed > limit`
+            assert!(unsafe { CLOCK_READS } == reads0 + 1);
+            let limit = if which % 3 == 1 { exact0 } else { hard0 };
+            assert!(r == (unsafe { LAST_ELAPSED } > limit));
         }
     }
     // Control::stop raises the very flag the strategy polls
